@@ -13,7 +13,7 @@ CloseI(a, b, s) == Abs(a - b) <= s
 CloseVec(a, b, s) == \A i \in I3 : CloseI(a[i], b[i], s)
 CloseMat(a, b, s) == \A i \in I3 : CloseVec(a[i], b[i], s)
 \* m (scaled by K) is orthonormal: rows have unit length and are pairwise orthogonal (products scaled by K*K)
-Ortho(m) == \A i \in I3 : \A j \in I3 :
+Ortho(m) == (\A i \in I3 : \A j \in I3 : Abs(m[i][j]) <= 2 * K) /\ \A i \in I3 : \A j \in I3 :   \* (entries first: products stay in 32 bits)
                LET d == m[i][1] * m[j][1] + m[i][2] * m[j][2] + m[i][3] * m[j][3]
                IN  Abs(d - (IF i = j THEN K * K ELSE 0)) <= 8 * K
 \* distances on values scaled by K \div 10 so that squares stay inside 32 bits
@@ -59,7 +59,7 @@ Clauses(ev) ==
       [] ev.e = "rotvec" -> V(CloseVec(ev.v, ev.v2, S), "RotVecMatRoundTrip") \cup V(Ortho(ev.M), "RotVecToMatOrthonormal")
                             \cup V(CloseMat(ev.avg, ev.M, S), "AverageOfIdentical")
       \* any angle: orthonormal, and the same matrix as for the vector reduced by whole turns (which the round-trip law covers)
-      [] ev.e = "rotany" -> V(Ortho(ev.M), "RotVecToMatOrthonormal") \cup V(CloseMat(ev.M, ev.Mr, S), "RotVecToMatWholeTurnsDoNotMatter")
+      [] ev.e = "rotany" -> V(Ortho(ev.M), "RotVecToMatOrthonormal") \cup V(~Ortho(ev.M) \/ CloseMat(ev.M, ev.Mr, S), "RotVecToMatWholeTurnsDoNotMatter")
       [] ev.e = "sphere" -> SphereViolS(ev.P, ev.center, ev.radius, IF "slack" \in DOMAIN ev THEN ev.slack ELSE 3)
       [] ev.e = "bounds" -> SphereViol(ev.P, ev.center, ev.radius)
       [] ev.e = "crash"  -> {"NoCrash"}
